@@ -121,8 +121,62 @@ pub fn time_pool(seed: u64, nrandom: usize) -> Vec<i128> {
     dedup(v)
 }
 
-pub fn ts_pool(seed: u64, nrandom: usize) -> Vec<i128> {
+/// Instants whose count in some derived unit (us, ms, s, min, h, day) sits at +-2^k: the places
+/// where a narrower machine integer or a double's 53-bit mantissa would give out.
+pub fn binary_boundary_instants() -> Vec<i128> {
     let mut v = vec![];
+    for unit in [1i128, 1000, US_PER_SEC, US_PER_MIN, US_PER_HOUR, US_PER_DAY] {
+        for k in 7..=62u32 {
+            let base = (1i128 << k) * unit;
+            if base > ts_max() + US_PER_DAY * 400 {
+                break;
+            }
+            for sign in [1i128, -1] {
+                for d in [-unit, -1, 0, 1, unit, unit / 2] {
+                    let x = sign * base + d;
+                    if ts_in_range(x) {
+                        v.push(x);
+                    }
+                }
+                // the instant one unit "before" the boundary counted in that unit, plus a fraction
+                let x = sign * (base - unit) + sign * (unit / 3);
+                if ts_in_range(x) {
+                    v.push(x);
+                }
+            }
+        }
+    }
+    dedup(v)
+}
+
+/// Days containing a binary-boundary instant (every second of these days is swept by C07/C10/C11).
+pub fn binary_boundary_days(all: bool) -> Vec<i32> {
+    let mut d: Vec<i32> = if all {
+        binary_boundary_instants().into_iter().map(|x| x.div_euclid(US_PER_DAY) as i32).collect()
+    } else {
+        // the classic widths: i32 / u32 seconds, i32 milliseconds, i32 minutes, i16 / u16 days,
+        // and the 53-bit mantissa of a double holding microseconds
+        let mut v = vec![];
+        for (unit, ks) in [(US_PER_SEC, vec![31u32, 32]), (1000, vec![31, 32]), (US_PER_MIN, vec![31]), (US_PER_DAY, vec![15, 16]), (1, vec![52, 53, 54])] {
+            for k in ks {
+                for sign in [1i128, -1] {
+                    for x in [sign * (1i128 << k) * unit, sign * (1i128 << k) * unit - 1] {
+                        if ts_in_range(x) {
+                            v.push(x.div_euclid(US_PER_DAY) as i32);
+                        }
+                    }
+                }
+            }
+        }
+        v
+    };
+    d.sort();
+    d.dedup();
+    d
+}
+
+pub fn ts_pool(seed: u64, nrandom: usize) -> Vec<i128> {
+    let mut v = binary_boundary_instants();
     let times = time_edges();
     for d in date_edges() {
         for t in &times {
@@ -139,7 +193,7 @@ pub fn ts_pool(seed: u64, nrandom: usize) -> Vec<i128> {
 /// A smaller timestamp pool for quadratic cross products.
 pub fn ts_pool_small(seed: u64, nrandom: usize) -> Vec<i128> {
     let c = cal();
-    let mut v = vec![];
+    let mut v: Vec<i128> = binary_boundary_instants().into_iter().filter(|x| x % 7 == 0 || x.abs() % US_PER_SEC == 0).take(160).collect();
     let dates = [
         c.first as i128,
         c.first as i128 + 1,
@@ -179,6 +233,26 @@ pub fn ym_edges() -> Vec<i128> {
     for x in [1i128, 2, 11, 12, 13, 23, 24, 25, 40, 41, 119, 120, 12 * 9998, 12 * 9998 + 11, 12 * 9999, 12 * 9999 + 1, 1_000_000, YM_MAX - 12, YM_MAX - 1, YM_MAX] {
         v.push(x);
         v.push(-x);
+    }
+    for k in 4..=31u32 {
+        for unit in [1i128, 12] {
+            let b = (1i128 << k) * unit;
+            for d in [-12i128, -1, 0, 1, 11, 12] {
+                if b + d <= YM_MAX {
+                    v.push(b + d);
+                    v.push(-(b + d));
+                }
+            }
+        }
+    }
+    // every small year count with a month (digit-count boundaries of the year field)
+    for y in 0..=130i128 {
+        v.push(y * 12 + (y % 12));
+        v.push(-(y * 12 + (y % 12)));
+    }
+    for y in [999i128, 1000, 9999, 10_000, 99_999, 100_000, 999_999, 1_000_000, 9_999_999, 10_000_000, 99_999_999, 100_000_000] {
+        v.push(y * 12 + 7);
+        v.push(-(y * 12 + 7));
     }
     dedup(v)
 }
@@ -225,6 +299,23 @@ pub fn dt_edges() -> Vec<i128> {
         DT_MAX - 1,
         DT_MAX,
     ];
+    // counts at 2^k in every derived unit (narrower integers, double mantissa)
+    for unit in [1i128, 1000, US_PER_SEC, US_PER_MIN, US_PER_HOUR, US_PER_DAY] {
+        for k in 7..=62u32 {
+            let base = (1i128 << k) * unit;
+            if base > DT_MAX {
+                break;
+            }
+            for d in [-unit, -1, 0, 1, unit / 2, unit - 1, unit] {
+                xs.push(base + d);
+            }
+        }
+    }
+    // every small whole-day count (two-digit / three-digit rendering, table boundaries)
+    for d in 0..=130i128 {
+        xs.push(d * US_PER_DAY);
+        xs.push(d * US_PER_DAY + hms(3, 4, 5, 678_901));
+    }
     let mut p = 10i128;
     while p < DT_MAX {
         xs.push(p);
@@ -365,6 +456,34 @@ pub fn f64_scalars() -> Vec<f64> {
         v.push(k as f64);
         v.push(1.0 / (1u64 << k) as f64);
         v.push(k as f64 + 0.5);
+    }
+    v.extend(binary_boundary_day_offsets());
+    v
+}
+
+/// Day offsets whose value in some derived unit (us, ms, s, min, h) sits at 2^k (+-1 unit), and
+/// the whole / half day counts next to them: where an intermediate narrower integer overflows.
+pub fn binary_boundary_day_offsets() -> Vec<f64> {
+    let mut v = vec![];
+    for unit in [1i128, 1000, US_PER_SEC, US_PER_MIN, US_PER_HOUR] {
+        for k in 8..=62u32 {
+            let us = (1i128 << k) * unit;
+            if us > 4_000_000 * US_PER_DAY {
+                break;
+            }
+            for d in [-unit, 0, unit] {
+                let x = (us + d) as f64 / US_PER_DAY as f64;
+                v.push(x);
+                v.push(-x);
+            }
+            let days = (us / US_PER_DAY) as f64;
+            for w in [days - 0.5, days, days + 0.5, days + 1.0] {
+                if w > 0.0 {
+                    v.push(w);
+                    v.push(-w);
+                }
+            }
+        }
     }
     v
 }
